@@ -22,8 +22,8 @@ _SEARCHTOTAL_CORE = (
 _searchtotal_add("C04", _SEARCHTOTAL_CORE,
     "Lean only; no new op. Not in the model, hence not covered: the `Analyze: wrong size` panic (engine of another board size: the invariant is indexed by the board size instead), ctx deadlines, the history map / sort.Sort (an oracle), "
     "Debug logging. Two configuration panics of the REAL engine follow from the necessity results and were reproduced on /repo with a standalone Go test (not through ./check: the harness's `tbl=` key counts whole entries and its "
-    "generators draw d <= 15): MinimaxConfig{TableMem: 8} -> integer divide by zero in ttGet; MinimaxConfig{Depth: 16} on the empty 5x5 board -> index out of range [15] with length 15 (cmd flags -table-mem / -depth reach both). "
-    "Proposed repairs in fixes/proposed/C04-config-{table-mem,depth}.{diff,msg} (not applied; theorems carry the two hypotheses).")
+    "generators draw d <= 15): MinimaxConfig{TableMem: 8} -> integer divide by zero in ttGet; MinimaxConfig{Depth: 16} on the empty 3x3 board with a constant evaluator -> index out of range [15] with length 15 after 0.3 s (Depth 15: returns) (cmd flags -table-mem / -depth reach both). "
+    "Proposed repairs in fixes/proposed/C04-minimax-config-panics.{diff,msg} (+ the reproducing Go test, _test.go.txt; ai tests pass with the patch) (not applied; theorems carry the two hypotheses).")
 
 _searchtotal_add("C05", "TOTALITY: see C04 (analyze_total_tak, analyzeAll_total_tak in Props/C04_total.lean): Analyze / AnalyzeAll return from every EngTak state for Depth <= 15, every configuration, with and without a table.",
     "Lean only.")
